@@ -47,6 +47,11 @@ BASE = {
                               "res / on get -> <a> :: <status=404, b>;\nres /lists on get -> <list>;\n"},
         "inline": ["r"], "identity": ["r"], "module": ["r"],
     },
+    "rec-function-applied-twice-in-one-expression": {
+        "files": {"main.oal": "let list x = rec r { 'item x, 'rest [r] };\nlet both = { 'ints (list int), 'strs (list str) };\nlet pair y = { 'l (list y), 'r (list bool) };\n"
+                              "res /both on get -> <both> :: <status=404, pair num>;\n"},
+        "inline": ["both"], "identity": ["both"], "module": ["list"],
+    },
     "two-recursive-schemas": {
         "files": {"main.oal": "let tree = { 'id int, 'kids [tree] };\nlet chain = { 'id str, 'rest [chain] };\nres /t on get -> <tree>;\nres /c on get -> <chain>;\n"},
         "inline": [], "identity": [], "module": ["tree"], "split": [["tree"], ["chain"]],
@@ -87,6 +92,9 @@ def variants(name, spec):
             v["inlined-" + nm] = {**files, "main.oal": rw.inline(src, [nm])}
     if spec.get("identity"):
         v["through-single-use-functions"] = {**files, "main.oal": rw.through_identity(src, spec["identity"])}
+        ab = rw.abstract_primitive(src, spec["identity"])
+        if ab != src:
+            v["body-as-a-function-of-one-of-its-primitives"] = {**files, "main.oal": ab}
     if spec.get("module"):
         v["moved-to-module"] = rw.to_module(files, spec["module"])
         v["moved-to-qualified-module"] = rw.to_module(files, spec["module"], qualifier="zq")
